@@ -2,7 +2,7 @@
    the correspondence C01/Corr.v runs against the real packers). *)
 From Coq Require Import List NArith Bool.
 Import ListNotations.
-From VF Require Import C01.Model C01.Proofs.
+From VF Require Import C01.Model C01.Proofs C01.KeyRef C01.KeyRefProofs.
 Local Open Scope N_scope.
 
 (* FULL STATEMENT, part 1 (round trip).  For every configuration (packer, key type, enc, key reference style),
@@ -26,6 +26,40 @@ Theorem only_recipients : forall c spar payload sender rcpts rn w party,
   unpack Fixed (packer_of c) party w = Err ENotFound /\ unpack_pkgr Fixed party w = Err ENotFound.
 Proof. exact only_recipients_lemma. Qed.
 Print Assumptions only_recipients.
+
+(* KEY REFERENCES (DID-document key-agreement ids "did#fragment", C01/KeyRef.v).  In a DID document with any
+   number of keyAgreement entries whose fragments are pairwise different, every entry — first, middle or last,
+   whatever the other fragments look like (suffixes of one another included) — is resolved to ITS key both by the
+   packager (fragment match) and by the repaired kid resolver (full id match): resolution is exact and
+   order-independent. *)
+Theorem keyref_resolution_exact : forall doc v,
+  NoDup (map vm_frag (dd_kas doc)) -> In v (dd_kas doc) ->
+  pk_find (dd_kas doc) (vm_frag v) = Some (vm_key v) /\
+  dr_first doc (dd_kas doc) (vm_full_id doc v) = Some (vm_key v).
+Proof. intros doc v Hnd Hin. split; [apply pk_find_own|apply dr_first_own]; assumption. Qed.
+Print Assumptions keyref_resolution_exact.
+
+(* the sender id "<kms kid>.<skid>" is split back into exactly its two parts, whatever dots the skid's DID has *)
+Theorem sender_id_split : forall k r, split_sender (sender_id k r) = (kid_of k, ref_str r).
+Proof. exact split_sender_id. Qed.
+Print Assumptions sender_id_split.
+
+(* round trip through packager.PackMessage with DID-document key references for sender and recipients *)
+Theorem roundtrip_keyrefs : forall d c spar payload sender rcpts rn w s rkeys party,
+  map_opt (pk_resolve d) rcpts = Some rkeys ->
+  (is_auth (packer_of c) = true -> pk_resolve d sender = Some s /\ In s spar) ->
+  pack_msg d c spar payload sender rcpts rn = Ok w ->
+  (exists k, In k rkeys /\ In k party) ->
+  exists k, In k rkeys /\ In k party /\
+    unpack_pkgr Fixed party w = Ok (Bytes payload, expect_from (packer_of c) s, k).
+Proof.
+  intros d c spar payload sender rcpts rn w s rkeys party Hr Hs Hp Hex.
+  rewrite (pack_msg_pack d c spar payload sender rcpts rn s rkeys Hr Hs) in Hp.
+  destruct (roundtrip_lemma _ _ _ _ _ _ _ party Hp Hex) as [k [H1 [H2 [_ H3]]]].
+  exists k. split; [assumption|]. split; [assumption|]. rewrite H3. unfold expect_from.
+  destruct (is_auth (packer_of c)); reflexivity.
+Qed.
+Print Assumptions roundtrip_keyrefs.
 
 (* both at once: whoever unpacks, the result is the packed triple or the not-a-recipient error — never another
    payload, never a panic *)
@@ -142,3 +176,20 @@ Example roundtrip_nonvacuous :
 Proof.
   split; intros p [<-|[<-|[]]]; vm_compute; repeat split.
 Qed.
+
+(* non-vacuity for the key-reference layer: sender did:web:a.b.c#key (DID with two dots), recipients addressed
+   in a party document listing fragments [alt;alt;key], [alt;key], [key] (suffixes of one another) *)
+Example keyrefs_nonvacuous :
+  let sdoc := mkdoc [10; DOT; 11; DOT; 12] [mkvm false [21] 1] in
+  let rdoc := mkdoc [13; DOT; 14] [mkvm true [20; 20; 21] 5; mkvm true [20; 21] 6; mkvm true [21] 7] in
+  let d := [sdoc; rdoc] in
+  let c := mkcfg JweAuth X25519 XC20P DidDocMulti in
+  pk_resolve d (mkref [13; DOT; 14] [20; 21]) = Some 6 /\
+  dr_resolve Fixed d (mkref [13; DOT; 14] [20; 21]) = RKey 6 /\
+  dr_resolve AsIs d (mkref [13; DOT; 14] [20; 21]) = RNil /\
+  match pack_msg d c [1] 77 (mkref [10; DOT; 11; DOT; 12] [21]) [mkref [13; DOT; 14] [20; 21]; mkref [13; DOT; 14] [21]]
+                 (mkrnd 100 101 102) with
+  | Ok w => unpack_pkgr Fixed [6] w = Ok (Bytes 77, Some 1, 6)
+  | _ => False
+  end.
+Proof. vm_compute. repeat split. Qed.
